@@ -272,6 +272,7 @@ Inductive cop :=
 | CHeader (t : str)                     (* resp.headers["Cache-Control"] = t *)
 | CHeaderDel
 | CAssign (v : ccv)                     (* resp.cache_control = v *)
+| CAssignSelf                           (* resp.cache_control = resp.cache_control (or its own .properties) *)
 | CDelete.                              (* del resp.cache_control *)
 
 (* ResponseHeaders.__setitem__ / pop *)
@@ -300,6 +301,13 @@ Definition rcc_step (st : rstate) (o : cop) : rstate * option str :=
   | CHeader t => (mkR (hl_set t (r_hl st)) (r_obj st), None)
   | CHeaderDel => (mkR (hg_del cc_key (r_hl st)) (r_obj st), None)
   | CAssign v => (resp_cc_assign v st, None)
+  | CAssignSelf =>
+      (* the right-hand side is read first; _cache_control__set then copies its properties (fixes/C12-14), clears
+         and refills the bound object: the directives survive *)
+      let '(st0, _) := resp_cc_get st in          (* the right-hand side *)
+      let '(st1, p) := resp_cc_get st0 in         (* cache = self.cache_control inside the setter (may re-sync) *)
+      let hl1 := resp_write [] (r_hl st1) in
+      (mkR (resp_write p hl1) (Some (p, serialize_cc p)), None)
   | CDelete => (resp_cc_assign (ADict []) st, None)
   end.
 
